@@ -21,6 +21,7 @@ type GenCfg struct {
 	SliceCall bool // allow calls in slice bounds (two-call slices expose the bound-order finding)
 	NilSafe   bool
 	NoInRange bool // do not generate `x in <literal range>` (development aid)
+	NarrowBounds bool // C06: run-time range bounds of narrow integer kinds (ranges of a few hundred elements)
 	Overload  bool // the ** operator is overloaded for two *Obj operands (OpA)
 	MapRep    bool // the environment is a map[string]interface{}: lower-case members exist, Any has its value's static type
 }
@@ -787,7 +788,11 @@ func (g *gen) seqLeaf() *N {
 func (g *gen) rangeExpr() *N {
 	if g.cfg.AllocOnly {
 		// bounds come from the environment: a run-time range
-		switch g.r.Intn(5) {
+		k := 3
+		if g.cfg.NarrowBounds {
+			k = 5
+		}
+		switch g.r.Intn(k) {
 		case 3:
 			// bounds of a narrow integer kind, alone or mixed with an int
 			return nBin("..", nID(g.r.Pick([]string{"I8", "U8"})), nInt(g.r.Range(100, 400)))
